@@ -37,6 +37,9 @@ def _server():
     return _srv
 
 
+CONE_PRESETS = ['g4', 'g6', 'g5']
+
+
 def sig_of(fam, name, v):
     kind = v.get('kind', v['verdict'])
     return 'C01 %s model=[%s] %s' % (fam, name, kind.split(' ')[0])
@@ -147,7 +150,9 @@ def main(tier, seed):
     step = int(os.environ.get('C01_STEP', '1'))
     # small special families first: if the deadline stops the run, what is cut is the tail of the shape family
     models.sort(key=lambda t: (t[0] == 'shapes', 0))
-    jobs = [(fam, name, m, tier, gnames, i) for i, (fam, name, m) in enumerate(models) if i % step == 0]
+    # the cone-shaped rows are run under the presets that accept cones (with / without quadratic rows)
+    jobs = [(fam, name, m, tier, CONE_PRESETS if fam == 'cones' else gnames, i)
+            for i, (fam, name, m) in enumerate(models) if i % step == 0]
     deadline = time.time() + (420 if tier == 'quick' else 3300)
     tot = collections.Counter(); classes = set(); fps = set()
     done = 0
@@ -176,7 +181,7 @@ def main(tier, seed):
             % (sorted(set(f for f, _, _ in models)), gnames))
     chk.set('bounds', {'acceptance_deviations_from_base': 1 if tier == 'quick' else 2,
                        'acceptance_levels': [0, 2] if tier == 'quick' else [0, 1, 2],
-                       'option_deviations': 1 if tier == 'quick' else 2, 'g_presets': gnames,
+                       'option_deviations': 1 if tier == 'quick' else 2, 'g_presets': gnames, 'g_presets_cones_family': CONE_PRESETS,
                        'models_total': len(models), 'model_step': step})
     chk.assumptions += [
         'strict comparisons on continuous bodies mean "by at least cvt:cmp:eps"; the grid step 0.5 keeps every threshold on the grid',
